@@ -1,1 +1,199 @@
-//! C14 monitor (filled in below)
+//! C14 — re-framing (Annex B to length-prefixed NALs, ADTS to raw AAC) is exact.
+
+use super::*;
+use crate::model::basic as mb;
+
+fn v(sig: String, detail: String) -> Violation {
+    Violation::new("C14", sig, detail)
+}
+
+pub const AB5: [u8; 5] = [0x00, 0x01, 0x02, 0x03, 0xff];
+pub const AB3: [u8; 3] = [0x00, 0x01, 0xaa];
+pub const AB5_MAXLEN: u32 = 9;
+pub const AB3_MAXLEN: u32 = 12;
+
+/// number of strings of length 0..=maxlen over an alphabet of size a
+pub fn space_size(a: u64, maxlen: u32) -> u64 {
+    (0..=maxlen).map(|l| a.pow(l)).sum()
+}
+
+/// i-th string (shortlex order)
+pub fn nth_string(alpha: &[u8], mut i: u64) -> Vec<u8> {
+    let a = alpha.len() as u64;
+    let mut len = 0u32;
+    loop {
+        let c = a.pow(len);
+        if i < c {
+            break;
+        }
+        i -= c;
+        len += 1;
+    }
+    let mut s = vec![0u8; len as usize];
+    for k in (0..len as usize).rev() {
+        s[k] = alpha[(i % a) as usize];
+        i /= a;
+    }
+    s
+}
+
+/// Check all four consumers on one byte string.
+pub fn check_bytes(s: &[u8], obs: &mut Obs) -> Vec<Violation> {
+    let mut out = Vec::new();
+    let want = mb::to_length_prefixed(s);
+    let want_units: Vec<&[u8]> = {
+        let u = mb::units(s);
+        if u.is_empty() && !s.is_empty() {
+            vec![s]
+        } else {
+            u
+        }
+    };
+    for (name, got) in [("annexb_to_avcc", muxide::codec::h264::annexb_to_avcc(s)), ("hevc_annexb_to_hvcc", muxide::codec::h265::hevc_annexb_to_hvcc(s))] {
+        match mb::parse_length_prefixed(&got) {
+            None => out.push(v(format!("{}|does-not-parse-to-its-end", name), format!("input {} -> output {} is not a sequence of [len32][payload]", crate::util::hex_short(s), crate::util::hex_short(&got)))),
+            Some(units) => {
+                if units != want_units {
+                    let what = if units.len() != want_units.len() { "unit-count" } else { "unit-bytes" };
+                    out.push(v(
+                        format!("{}|{}", name, what),
+                        format!("input {} -> units {:?} ; expected {:?}", crate::util::hex_short(s), units.iter().map(|u| crate::util::hex_short(u)).collect::<Vec<_>>(), want_units.iter().map(|u| crate::util::hex_short(u)).collect::<Vec<_>>()),
+                    ));
+                }
+            }
+        }
+        if got != want && out.is_empty() {
+            out.push(v(format!("{}|output-bytes", name), format!("input {} -> {} ; expected {}", crate::util::hex_short(s), crate::util::hex_short(&got), crate::util::hex_short(&want))));
+        }
+    }
+    let it: Vec<&[u8]> = muxide::codec::AnnexBNalIter::new(s).filter(|n| !n.is_empty()).collect();
+    if it != mb::units(s) {
+        out.push(v("AnnexBNalIter|units".into(), format!("input {} -> iterator yields {:?} ; expected {:?}", crate::util::hex_short(s), it.iter().map(|u| crate::util::hex_short(u)).collect::<Vec<_>>(), mb::units(s).iter().map(|u| crate::util::hex_short(u)).collect::<Vec<_>>())));
+    }
+    obs.evaluations += 1;
+    if mb::next_start_code(s, 0).is_some() {
+        obs.count("inputs_with_start_code", 1);
+    }
+    out
+}
+
+/// Constructive: NAL list known by construction (emulation-safe bodies), random start codes,
+/// leading garbage, trailing zeros.
+pub fn constructive(r: &mut crate::util::Rng, obs: &mut Obs) -> (Vec<u8>, Vec<Violation>) {
+    let n = r.range(1, 12) as usize;
+    let mut nals: Vec<Vec<u8>> = Vec::new();
+    for _ in 0..n {
+        let len = match r.below(8) {
+            0 => 1,
+            1 => r.range(2, 4) as usize,
+            7 => r.range(1000, 65_536) as usize,
+            _ => r.range(4, 300) as usize,
+        };
+        // bytes >= 4 never form (part of) a start code and never end in zero
+        let b: Vec<u8> = r.bytes(len).into_iter().map(|x| if x < 4 { x | 4 } else { x }).collect();
+        nals.push(b);
+    }
+    let mut s = Vec::new();
+    if r.chance(1, 3) {
+        let g = r.range(1, 9) as usize;
+        s.extend(r.bytes(g).into_iter().map(|x| if x < 4 { x | 8 } else { x }));
+    }
+    for nal in &nals {
+        if r.chance(1, 2) {
+            s.extend_from_slice(&[0, 0, 0, 1]);
+        } else {
+            s.extend_from_slice(&[0, 0, 1]);
+        }
+        s.extend_from_slice(nal);
+    }
+    // trailing zeros belong to the last unit ("up to ... the end of the input")
+    let tz = if r.chance(1, 3) { r.range(1, 3) as usize } else { 0 };
+    s.extend(std::iter::repeat(0u8).take(tz));
+    let mut want = nals.clone();
+    if tz > 0 {
+        want.last_mut().unwrap().extend(std::iter::repeat(0u8).take(tz));
+    }
+    let mut out = Vec::new();
+    for (name, got) in [("annexb_to_avcc", muxide::codec::h264::annexb_to_avcc(&s)), ("hevc_annexb_to_hvcc", muxide::codec::h265::hevc_annexb_to_hvcc(&s))] {
+        match mb::parse_length_prefixed(&got) {
+            None => out.push(v(format!("{}|does-not-parse-to-its-end|constructive", name), format!("{} NAL units, {} bytes", n, s.len()))),
+            Some(units) => {
+                let w: Vec<&[u8]> = want.iter().map(|x| x.as_slice()).collect();
+                if units != w {
+                    out.push(v(format!("{}|constructive-units", name), format!("{} NAL units of lengths {:?} -> got lengths {:?}", n, w.iter().map(|u| u.len()).collect::<Vec<_>>(), units.iter().map(|u| u.len()).collect::<Vec<_>>())));
+                }
+            }
+        }
+    }
+    obs.evaluations += 1;
+    obs.count("constructive_inputs", 1);
+    obs.count("constructive_bytes", s.len() as u64);
+    // the model must agree with the construction as well (oracle self-check)
+    let mu: Vec<Vec<u8>> = mb::units(&s).into_iter().map(|u| u.to_vec()).collect();
+    if mu != want {
+        obs.count("MODEL_DISAGREES_WITH_CONSTRUCTION", 1);
+    }
+    (s, out)
+}
+
+/// ADTS: frames with declared length `flen` for flen in lo..hi, buffer length flen+delta. The
+/// stored sample of every frame the muxer accepts must be frame[hdr..flen].
+pub fn check_adts(protection_absent: bool, delta: i32, lo: u32, hi: u32, obs: &mut Obs) -> Vec<Violation> {
+    use crate::exec::{run, ExecOpts};
+    let mut out = Vec::new();
+    let mut r = crate::util::Rng::new(crate::util::mix(lo as u64, hi as u64 * 4 + protection_absent as u64));
+    let mut cfg = Cfg::basic(H264);
+    cfg.audio = Some(AudioCfg { kind: 1, rate: 48_000, channels: 2 });
+    cfg.fast_start = Some(lo % 2 == 0);
+    let key = crate::gen::frames::h264_frame(&mut r, crate::gen::frames::FrameKind::KeyCfg, 16, false);
+    let mut ops = vec![Op::wv(0.0, key, true)];
+    let hdr = if protection_absent { 7usize } else { 9 };
+    let mut frames: Vec<(Vec<u8>, usize)> = Vec::new();
+    for (j, flen) in (lo..hi).enumerate() {
+        let buf_len = (flen as i64 + delta as i64).max(0) as usize;
+        // build header with the declared length, then fill the buffer to buf_len
+        let mut f = mb::build_adts(1, 3, 2, protection_absent, &[], Some(flen as usize), 0, 0);
+        while f.len() < buf_len {
+            f.push((f.len() as u8).wrapping_mul(31).wrapping_add(j as u8) | 1);
+        }
+        f.truncate(buf_len.max(0));
+        ops.push(Op::wa(j as f64 * 0.02, f.clone()));
+        frames.push((f, flen as usize));
+    }
+    ops.push(Op::Finish(FinishKind::InPlaceStats));
+    let h = History { cfg, ops };
+    let (ex, sink) = run(&h, &ExecOpts::default());
+    if ex.any_panic() {
+        obs.inconclusive += 1;
+        return out;
+    }
+    let bytes = sink.bytes();
+    let tree = bmff::parse_tree(&bytes);
+    let movie = bmff::parse_movie(&bytes, &tree);
+    let Some(at) = movie.tracks.iter().find(|t| &t.handler == b"soun") else {
+        out.push(v("adts|no-audio-track".into(), "finished file has no audio track".into()));
+        return out;
+    };
+    let accepted: Vec<&(Vec<u8>, usize)> = frames.iter().zip(ex.results[1..].iter()).filter(|(_, r)| r.is_ok()).map(|(f, _)| f).collect();
+    obs.count("adts_frames_submitted", frames.len() as u64);
+    obs.count("adts_frames_accepted", accepted.len() as u64);
+    obs.evaluations += frames.len() as u64;
+    if at.samples.len() != accepted.len() {
+        out.push(v("adts|sample-count".into(), format!("{} accepted ADTS frames but {} audio samples", accepted.len(), at.samples.len())));
+        return out;
+    }
+    for (s, (f, flen)) in at.samples.iter().zip(accepted.iter()) {
+        let a = s.offset as usize;
+        let got = bytes.get(a..a + s.size as usize).unwrap_or(&[]);
+        let want = &f[hdr.min(f.len())..(*flen).min(f.len())];
+        if got != want {
+            out.push(v(
+                format!("adts|payload|protection_absent={}", protection_absent),
+                format!("ADTS frame with declared length {} in a {}-byte buffer: stored sample {} ; expected frame[{}..{}] = {}", flen, f.len(), crate::util::hex_short(got), hdr, flen, crate::util::hex_short(want)),
+            ));
+            break;
+        }
+        obs.nontrivial(crate::util::fnv(f));
+    }
+    out
+}
